@@ -115,6 +115,16 @@ func runC09(c *Ctx) {
 			}
 		}
 	}
+	// the live file must never be moved or removed either
+	for _, fn := range fns {
+		for _, call := range callsMatching(fn, false, func(n string) bool { return n == "os.Rename" || n == "os.Remove" || n == "os.RemoveAll" }) {
+			for _, rt := range tr.Roots(call.Common().Args[0]) {
+				if which, isData := dataPathRoot(rt); isData {
+					r.Bad("O-1", ord.next(load.FuncKey(fn)+"#"+ssau.CallName(call)+"-of-live-file"), c.P.Pos(call.Pos()), "the live "+which+" file is renamed away or removed ("+ssau.CallName(call)+"): a crash right after leaves no file with either the old or the new content")
+				}
+			}
+		}
+	}
 	r.Floor("O-1", "in-place opener call sites examined", nOpen, 4)
 	r.Analysed["destructive_open_sites"] = nOpen
 
